@@ -1637,6 +1637,90 @@ def run_spelling_stream(ctx):
 
 
 
+# ---------------------------------------------------------------- shape stream
+# Chained splitters x how the recipients are distributed over domains: several sibling
+# envelopes are split in the same policy pass (2+2+2, 3+2+2, ...).  No fault: every write
+# succeeds.  Oracle: at the 2xx every accepted recipient is in exactly one stored envelope.
+SHAPES = [(2, 2, 2), (3, 2, 2), (2, 3, 1, 2), (1, 2, 2), (2, 2, 2, 2), (1, 1, 1, 1), (2, 2), (3, 3, 3),
+          (2, 1, 2, 1, 2), (2, 2, 1), (4, 1, 3), (1, 3, 3, 1)]
+SHAPE_CHAINS = {
+    'domain>split': ('DS', 'S'), 'split>domain': ('S', 'DS'), 'domain>date>split': ('DS', 'D', 'S'),
+    'domain>split>domain': ('DS', 'S', 'DS'), 'split>date>split': ('S', 'D', 'S'), 'date>domain>split': ('D', 'DS', 'S'),
+    'domain>msgid>split>date': ('DS', 'M', 'S', 'D'), 'domain': ('DS',), 'split': ('S',),
+}
+
+
+def shape_rcpts(shape):
+    return ['r%d_%d@dom%d.example' % (i, j, i) for i, m in enumerate(shape) for j in range(m)]
+
+
+class RecordRelay(Relay):
+    def __init__(self):
+        super(RecordRelay, self).__init__()
+        self.got = []
+
+    def attempt(self, envelope, attempts):
+        self.got.extend(envelope.recipients)
+
+
+def run_shape(edge_kind, qkind, chain, shape):
+    rcpts = shape_rcpts(shape)
+    if qkind == 'proxy':
+        relay = RecordRelay()
+        queue = ProxyQueue(relay)
+        snapshot = lambda: (sorted(relay.got), 1)
+    else:
+        store = DictStorage()
+        queue = Queue(store, None)
+        for pname in SHAPE_CHAINS[chain]:
+            queue.add_policy({'D': AddDateHeader, 'M': lambda: AddMessageIdHeader('edge.test'), 'S': RecipientSplit,
+                              'DS': RecipientDomainSplit}[pname]())
+        snapshot = lambda: (sorted(r for e in store.env_db.values() for r in e.recipients), len(store.env_db))
+    r = Run(edge_kind, queue, rcpts, lambda: None, [], snapshot).go()
+    stored, nenv = r.at_reply if r.at_reply is not None else (None, None)
+    return dict(answer=r.answer, rcpts=rcpts, stored=stored, envelopes=nenv)
+
+
+def run_shape_stream(ctx):
+    cases = [(qk, chain, shape) for shape in SHAPES for qk, chain in
+             [('queue', c) for c in SHAPE_CHAINS] + [('proxy', 'none')]]
+    def n_expected(qk, chain, shape):
+        if qk == 'proxy':
+            return 1
+        return sum(shape) if 'S' in SHAPE_CHAINS[chain] else len(shape)
+    mouts = ctx.model.batch('c02_queue', [[0, [[0, 0, [0]]] * n_expected(*c)] for c in cases])
+    for (qk, chain, shape), m in zip(cases, mouts):
+        for ei, edge_kind in enumerate(('smtp', 'wsgi')):
+            out = run_shape(edge_kind, qk, chain, shape)
+            case = dict(stream='shape', edge=edge_kind, queue=qk, chain=chain, shape=list(shape))
+            ctx.evaluated(('shape', edge_kind, qk, chain, shape), nontrivial=True)
+            ctx.count('shape:%s' % chain)
+            c = cls(out['answer'])
+            if out['answer'] is None or out['answer'] == 'dropped':
+                fail(ctx, 'c02:no-answer', case, 'answer %r although nothing failed' % (out['answer'],))
+            elif c == 2:
+                missing = [x for x in out['rcpts'] if x not in out['stored']]
+                twice = sorted(set(x for x in out['stored'] if out['stored'].count(x) > 1))
+                if missing:
+                    fail(ctx, 'c02:2xx-but-recipient-in-no-stored-envelope', case,
+                         'answer %r; %d envelopes stored; accepted recipients in no stored envelope: %r (stored more than once: %r)'
+                         % (out['answer'], out['envelopes'], missing, twice))
+                elif twice:
+                    ctx.note('chained splitters: recipients stored in more than one envelope %r (duplicates are tolerated by C02)' % (twice[:2],))
+            elif c not in (4, 5):
+                fail(ctx, 'c02:answer-class', case, 'answer %r' % (out['answer'],))
+            # correspondence: the policy chain produced as many envelopes as the model was given writes
+            m_ans = m[ei][1]
+            m_ans = B(m_ans[0]).decode() if edge_kind == 'smtp' else m_ans[0]
+            m_env = sum(1 for e in m[ei][0] if e[0] == 2)
+            if (out['answer'], out['envelopes']) != (m_ans, m_env):
+                ctx.mismatch('shape', case, dict(answer=out['answer'], envelopes=out['envelopes'], stored=out['stored']),
+                             dict(answer=m_ans, envelopes=m_env))
+            ctx.sample(dict(case=case, answer=out['answer'], envelopes=out['envelopes']), cap=14)
+    return len(cases) * 2
+
+
+
 # ---------------------------------------------------------------- entry points
 class quiet(object):
     """no network (PTR lookups stubbed), no log noise, no tracebacks of the
@@ -1672,6 +1756,7 @@ def run(ctx):
         nc, nall = run_concurrent_stream(ctx)
         ns = run_session_stream(ctx)
         nsp = run_spelling_stream(ctx)
+        nsh = run_shape_stream(ctx)
     ctx.extra['rule'] = (
         'queue stream: every list of 1-4 storage-write behaviours over {id, QueueError, QueueError+550 reply, other exception} '
         'with no or exactly one slow write at every position, every list of 1-%d behaviours over 8 kinds (attached replies 450/550/250/354/no code) '
@@ -1687,7 +1772,9 @@ def run(ctx):
         '(real DictStorage, plain or with gated writes) with 11 policy chains containing a policy that yields inside apply() (gevent.sleep(0) or a gate; first/middle/last position; '
         'with/without RecipientSplit/RecipientDomainSplit before/after it): %d runs, every interleaving of sends and gate releases for %d configurations, seeded random interleavings for the rest; '
         'oracle per client at the instant it reads 2xx: every one of ITS recipients is stored in an envelope of ITS message; the global event log must be the model\'s interleaving (c02_sched) '
-        'of the per-message runs, i.e. each client\'s events are exactly its own sequential model run. spelling stream (oracle only): %d requests to the real WsgiEdge (recording WsgiValidators, real Queue + DictStorage, with/without RecipientSplit) whose X-Envelope-Recipient value is '
+        'of the per-message runs, i.e. each client\'s events are exactly its own sequential model run. shape stream: %d runs of recipient distributions over domains (2+2+2, 3+2+2, 2+3+1+2, 1+2+2, 2+2+2+2, ... 12 shapes) under 9 chains of chained splitters '
+        '(domain split then recipient split, the reverse, split + non-splitting policy + split, three splitters) on both edges over a real Queue + DictStorage, and over ProxyQueue: '
+        'at the 2xx every accepted recipient is in a stored envelope and the number of envelopes is the model\'s; spelling stream (oracle only): %d requests to the real WsgiEdge (recording WsgiValidators, real Queue + DictStorage, with/without RecipientSplit) whose X-Envelope-Recipient value is '
         'spelled by hand in 14 ways (repeated header, "," / ";" with and without blanks and tabs, mixed, trailing separator, unpadded base64) for 1-3 recipients of every base64 padding class: '
         'on 2xx every recipient the client named was shown to the validators and is stored; session stream: %d whole SMTP sessions on the real SmtpEdge/Server with a validator class deciding every command '
         '(MAIL 250/450/550, each RCPT 250/450/550, DATA 354/451/554, received data 250/550, EHLO 250/550), transactions continued after a refused RCPT and after a refused DATA '
@@ -1697,7 +1784,7 @@ def run(ctx):
         'Compared with the model: event trace (write start/tick/done/fail, answer), answer code, attempts spawned, storage contents at the instant of the answer, '
         'and the trace at every blocked instant against the model run in which that write hangs. '
         'non-trivial = more than one envelope, a failing or slow write, any proxy case, result lists of length != 1'
-        % (2 if ctx.quick else 3, nq, 3 if ctx.quick else 4, nr, np_, nc, nall, nsp, ns, 4 if ctx.quick else 5))
+        % (2 if ctx.quick else 3, nq, 3 if ctx.quick else 4, nr, np_, nc, nall, nsh, nsp, ns, 4 if ctx.quick else 5))
     ctx.extra.pop('_c02_fail', None)
     ctx.extra['exhaustive'] = True
     ctx.extra['exhaustive_bound'] = (
@@ -1743,6 +1830,12 @@ def replay(ctx, case):
             if ctx.model:
                 mo = ctx.model.call('c02_sched', [0, expected_msgs(cfg), [o for o, e in out['log']]])
                 print('model (per-message runs interleaved as observed):', [(e[0], canon_trace([e[1]])[0]) for e in mo])
+        elif c.get('stream') == 'shape':
+            out = run_shape(c['edge'], c['queue'], c['chain'], tuple(c['shape']))
+            print('recipients named    : %r' % out['rcpts'])
+            print('answer              : %r' % (out['answer'],))
+            print('stored at the answer: %r in %r envelopes' % (out['stored'], out['envelopes']))
+            print('in no stored envelope: %r' % [x for x in out['rcpts'] if x not in (out['stored'] or [])])
         elif c.get('stream') == 'spelling':
             out = run_spelling(tuple(c['recipients']), c['spelling'], c['chain'])
             print('X-Envelope-Recipient: %r' % out['header'])
